@@ -24,9 +24,12 @@ CORR = "Update/UpdateDefs.v (newfb_state / setdesktop_clients_at / send_client s
 # ---------------------------------------------------------------- generator
 def gen_case(rng, k, quick, kind=None):
     r = rng.random()
-    kind = kind or ("resize" if r < 0.80 else ("richcursor" if r < 0.86 else ("sds" if r < 0.96 else "f12")))
+    kind = kind or ("resize" if r < 0.72 else ("richcursor" if r < 0.78 else ("sds" if r < 0.88 else
+                    ("scaled" if r < 0.96 else "f12"))))
     if kind == "f12":
         return gen_f12(rng, k)
+    if kind == "scaled":
+        return gen_scaled(rng, k, quick)
     W, H = C02.rnd_size(rng, quick)
     bpp = rng.choice([1, 2, 4, 4])
     ncl = rng.choice([1, 2, 2, 3])
@@ -101,6 +104,62 @@ def gen_case(rng, k, quick, kind=None):
     return L
 
 
+def gen_scaled(rng, k, quick):
+    """scaled clients inside the model's scope: SetScale / size messages / rfbNewFramebuffer bookkeeping
+    (sizes of the scaledScreenNext chain, each client's scaledScreen, what size it is told)"""
+    W, H = rng.choice([(8, 6), (12, 8), (16, 12), (9, 7), (20, 10)])
+    bpp = rng.choice([1, 2, 4])
+    ncl = rng.choice([1, 2, 3])
+    L = ["case %d %d %d %d scaled" % (k, W, H, bpp), "setcursor 0"]
+    for c in range(ncl):
+        L.append("addclient")
+    scaled = {}
+    cansend = {}
+    for c in range(ncl):
+        mode = rng.choice(["newfb", "newfb", "ext", "none"])
+        L.append("setenc %d 0 1 %d %d" % (c, 1 if mode == "newfb" else 0, 1 if mode == "ext" else 0))
+        cansend[c] = False
+        scaled[c] = (mode == "none") and None
+        if rng.random() < 0.5:
+            L += ["req %d 0 0 0 %d %d" % (c, W, H), "tick %d" % c]
+    modes = {}
+    for l in L:
+        p = l.split()
+        if p[0] == "setenc":
+            modes[int(p[1])] = "none" if (p[4] == "0" and p[5] == "0") else "resize"
+    isscaled = {c: False for c in range(ncl)}
+    for _ in range(rng.choice([6, 10, 16])):
+        r = rng.random(); c = rng.randrange(ncl)
+        if r < 0.30:
+            n = rng.choice([1, 2, 2, 3, 4, max(W, H) + 1])
+            L.append("setscale %d %d" % (c, n))
+            if not (W // n == 0 or H // n == 0):
+                isscaled[c] = not (W // n == W and H // n == H)
+                cansend[c] = modes[c] == "resize"
+        elif r < 0.50:
+            if cansend[c] or not isscaled[c]:
+                L.append("send %d" % c)
+                cansend[c] = False
+        elif r < 0.65:
+            nw, nh = rng.choice([(W, H), (W * 2, H * 2), (max(1, W - 3), max(1, H - 2)), C02.rnd_size(rng, quick)])
+            nb = bpp if rng.random() < 0.7 else rng.choice([1, 2, 4])
+            L.append("newfb %d %d %d %d" % (nw, nh, nb, rng.randint(0, 999)))
+            W, H, bpp = nw, nh, nb
+            for q in range(ncl):
+                if modes[q] == "resize":
+                    cansend[q] = True
+        elif r < 0.80:
+            L.append("draw %d %d %d %d %d" % (C02.rnd_mark_args(rng, W, H) + (rng.randint(0, 999),)))
+        elif r < 0.88:
+            (rc,), dx, dy = C02.rnd_copy(rng, W, H, 1)
+            L.append("docopyrect %d %d %d %d %d %d" % (rc + (dx, dy)))
+        else:
+            if not isscaled[c]:
+                L.append(C02.rnd_req(rng, W, H, c, False))
+                L.append("tick %d" % c)
+    return L
+
+
 def gen_f12(rng, k):
     """implementation-only: a scaled client, a new framebuffer with uniform content v, a full request.
     The scaled picture of a uniform framebuffer is uniform with the same value."""
@@ -141,6 +200,10 @@ def boundary_cases(k0):
         "setdesktopsize 0 20 10 1 0", "req 0 1 0 0 12 8", "tick 0", "newfb 20 10 4 5",
         "req 0 1 0 0 12 8", "req 1 1 0 0 12 8", "tick 0", "tick 1", "req 0 0 0 0 20 10", "tick 0", "tick 0",
         "setdesktopsize 1 5 5 0 3", "setdesktopsize 1 5 5 255 2", "req 1 1 0 0 20 10", "tick 1", "tick 1"])
+    # F12 inside the model: SetScale 2, told 6x4; new framebuffer 24x16: told 6x4 again
+    add("scaled", 12, 8, 4, ["setcursor 0", "addclient", "setenc 0 0 1 1 0", "setscale 0 2", "send 0", "newfb 24 16 4 7", "send 0"])
+    add("scaled", 12, 8, 4, ["setcursor 0", "addclient", "addclient", "setenc 0 0 1 0 0", "setenc 1 0 1 0 1", "setscale 0 2",
+        "setscale 1 2", "send 1", "setscale 1 4", "setscale 0 13", "setscale 1 1", "send 1", "newfb 6 4 2 3", "setscale 0 1"])
     C.append(gen_f12(__import__("random").Random(5), k0 + len(C)))
     return C
 
@@ -201,10 +264,13 @@ def oracle_case(case, impl_lines, crash):
     ops = case[1:]
     W, H = int(case[0].split()[2]), int(case[0].split()[3])
     prev = None
+    factor = {}        # client -> scale factor it asked for last
     for i, opline in enumerate(ops):
         if i >= len(impl_lines):
             break
         p = opline.split()
+        if p[0] == "setscale":
+            factor[int(p[1])] = int(p[2])
         o = C02.parse_obs(impl_lines[i])
         if o["err"] is not None:
             break
@@ -238,16 +304,26 @@ def oracle_case(case, impl_lines, crash):
                 kinds = [k for (k, _, _) in rects]
                 if must:
                     ok = len(rects) == 1 and n == 1 and kinds[0] in ("N", "E")
+                    EW, EH = W, H
+                    if pc.get("sc") is not None and ok:
+                        # a scaled client must be told the size of the CURRENT framebuffer divided by its factor
+                        f = factor.get(ci, 1)
+                        EW, EH = W // f, H // f
+                        if rects[0][1][-2:] != [EW, EH]:
+                            return ("scaled client %d (factor %d) is told %dx%d after '%s' although the framebuffer is "
+                                    "%dx%d (expected %dx%d): the scaled screen still belongs to the old framebuffer"
+                                    % (ci, f, rects[0][1][-2], rects[0][1][-1], opline, W, H, EW, EH),
+                                    {"what": "scaled-stale-size", "scaled": True})
                     if ok and kinds[0] == "N":
-                        ok = rects[0][1] == [W, H] and pc["f"][5] == "0"
+                        ok = rects[0][1] == [EW, EH] and pc["f"][5] == "0"
                     if ok and kinds[0] == "E":
-                        ok = rects[0][1] == [pc["q"][0], pc["q"][1], W, H] and pc["f"][5] == "1"
+                        ok = rects[0][1] == [pc["q"][0], pc["q"][1], EW, EH] and pc["f"][5] == "1"
                     if not ok:
                         return ("client %d (resize support, size message pending) received %s after '%s', expected exactly "
                                 "one size pseudo-rectangle %dx%d%s" % (ci, [(k, v) for (k, v, _) in rects], opline, W, H,
                                 " with reason/status %s" % (pc["q"],) if pc["f"][5] == "1" else ""),
                                 {"what": "size-first", "op": p[0]})
-                    if ci < len(o["clients"]) and o["clients"][ci]["sz"] != (W, H):
+                    if ci < len(o["clients"]) and o["clients"][ci]["sz"] != (EW, EH):
                         return ("peer %d has size %s after the size message for %dx%d" % (ci, o["clients"][ci]["sz"], W, H),
                                 {"what": "peer-size", "op": p[0]})
                     must = False
@@ -284,7 +360,7 @@ def oracle_case(case, impl_lines, crash):
 
 # ---------------------------------------------------------------- the check
 def build(ctx):
-    cexe = vlib.build_harness("vdrv_update", ["vdrv_update.c"])
+    cexe = vlib.build_harness("vdrv_update", ["vdrv_update.c"], wraps=C02.HARNESS_WRAPS)
     proof_ok = vlib.prove(ctx, PROP_FILE, [EXTRACT])
     mexe = vlib.build_ocaml(PID, "driver_C16.ml", EXTRACT)
     return cexe, mexe, proof_ok
